@@ -186,12 +186,19 @@ func solveOne(o *Obligation, dir string, timeoutS int, agree bool, seed int) {
 	// printing touches the (non thread-safe) term context of the function
 	mu := ctxLock(o.ctx)
 	mu.Lock()
+	t0 := time.Now()
 	script := o.script()
+	if os.Getenv("GOVC_TIMING") != "" {
+		fmt.Fprintf(os.Stderr, "print %s %dms %dKB\n", o.Name, time.Since(t0).Milliseconds(), len(script)/1024)
+	}
 	mu.Unlock()
 	h := sha1.Sum([]byte(o.Hash))
 	base := fmt.Sprintf("%s_%x", mangle(o.Name), h[:6])
 	if len(base) > 120 {
 		base = base[len(base)-120:]
+	}
+	if o.Cover && timeoutS > 2 {
+		timeoutS = 2
 	}
 	r := runSolvers(dir, base, script, timeoutS, agree && !o.Cover, seed)
 	o.Status = r.status
